@@ -298,9 +298,18 @@ func TestC07(t *testing.T) {
 	}
 	progs = progsSaved
 	var lakeCases int64
-	for _, keySpec := range []string{"k:asc", "k:desc"} {
-		st, err := buildSetup(ctx, vstore.Atomic, []lk.Op{{Kind: "createpool", Pool: "p", Key: keySpec, Thresh: 1, Stride: 1},
-			ld("p", "main", inputs[0].text), ld("p", "main", inputs[1].text)}, true)
+	type lakeLayout struct {
+		keySpec string
+		thresh  int64
+	}
+	// one value per object (threshold 1), and one object per load spanning a key range
+	for _, lay := range []lakeLayout{{"k:asc", 1}, {"k:desc", 1}, {"k:asc", 0}, {"k:desc", 0}} {
+		keySpec := lay.keySpec
+		if lay.thresh == 0 {
+			keySpec += " object-per-load"
+		}
+		st, err := buildSetup(ctx, vstore.Atomic, []lk.Op{{Kind: "createpool", Pool: "p", Key: lay.keySpec, Thresh: lay.thresh, Stride: 1},
+			ld("p", "main", inputs[0].text), ld("p", "main", inputs[1].text), ld("p", "main", `{k:6,a:1,s:"x"} {k:9,a:2,s:"y"} {k:7,a:1,s:"z"}`)}, true)
 		if err != nil {
 			t.Fatal(err)
 		}
@@ -340,7 +349,7 @@ func TestC07(t *testing.T) {
 	run.Set("cases_skipped_because_the_unoptimized_plan_hangs", referenceHangs)
 	run.Set("evaluations", nprogs+lakeCases+int64(corpusN))
 	run.Set("exhaustive", !past)
-	run.Set("rule", "programs: every pipeline of length <= 2 (3 in thorough; quick adds all length-3 pipelines over a 12-operator sub-alphabet) over a 40-operator alphabet (filters incl. search, cut (plain and with assignments to and from the key)/drop/put/rename/yield, sorts, head/tail/uniq/fuse/pass, summarize with by / -limit, fork, switch, merge, over, join), skipping operators that need a defined order right after one that leaves it undefined; x 4 stream inputs (plain, heterogeneous shapes with missing/mixed-type keys and a non-record, declared sorted k asc, declared sorted k desc with the input really sorted) and, for length <= 2, pool scans of an asc and a desc pool; plus the repository's ztest programs with their own inputs and compiler/parser/valid.zed. Each program is run twice from one analyzed job: Build without Optimize, and Optimize then Build; outputs must be equal as sequences when every operator preserves order, as multisets otherwise; an error on one side only is a disagreement")
+	run.Set("rule", "programs: every pipeline of length <= 2 (3 in thorough; quick adds all length-3 pipelines over a 12-operator sub-alphabet) over a 40-operator alphabet (filters incl. search, cut (plain and with assignments to and from the key)/drop/put/rename/yield, sorts, head/tail/uniq/fuse/pass, summarize with by / -limit, fork, switch, merge, over, join), skipping operators that need a defined order right after one that leaves it undefined; x 4 stream inputs (plain, heterogeneous shapes with missing/mixed-type keys and a non-record, declared sorted k asc, declared sorted k desc with the input really sorted) and, for length <= 2, pool scans of an asc and a desc pool, each laid out as one value per object and as one object per load (objects spanning key ranges); plus the repository's ztest programs with their own inputs and compiler/parser/valid.zed. Each program is run twice from one analyzed job: Build without Optimize, and Optimize then Build; outputs must be equal as sequences when every operator preserves order, as multisets otherwise; an error on one side only is a disagreement")
 	run.Assume("the unoptimized plan (kernel executing the analyzed DAG as is) is the reference semantics")
 	run.Assume("programs whose result is legitimately under-determined (head/tail/uniq/collect/merge after an aggregation or fork) are not generated; corpus programs whose two runs both fail are skipped")
 }
